@@ -81,7 +81,7 @@ def wl_histories(ctx, rng, case):
     case.desc = dict(cfg.desc(), n_keys=len(keys))
     for op in ops:
         case.op(*op)
-    ex, stats = explore(ctx, rng, case, cfg, keys, ops, 100 if ctx.tier == "quick" else 10000, extra=20 if ctx.tier == "quick" else 300)
+    ex, stats = explore(ctx, rng, case, cfg, keys, ops, 100 if ctx.tier == "quick" else 1500, extra=20 if ctx.tier == "quick" else 300)
     ctx.observe("capacities", cfg.capacity)
     ctx.observe("bucket_sizes", cfg.bucket_size)
     case.nontrivial = ex.decisions > 0 or stats["capacity_changes"] > 0 or stats["reloads"] > 0
@@ -110,7 +110,7 @@ def wl_remove_readd(ctx, rng, case):
     case.desc = dict(cfg.desc(), n_keys=len(keys), kind="fill, remove, re-add")
     for op in ops:
         case.op(*op)
-    ex, stats = explore(ctx, rng, case, cfg, keys, ops, 60 if ctx.tier == "quick" else 5000, extra=10 if ctx.tier == "quick" else 200)
+    ex, stats = explore(ctx, rng, case, cfg, keys, ops, 60 if ctx.tier == "quick" else 800, extra=10 if ctx.tier == "quick" else 200)
     case.nontrivial = True
 
 
@@ -180,12 +180,12 @@ PROP = Prop(
     "exploration",
     rule=("configurations and histories as in C03 (capacity 1..8, bucket 1..4, max_swaps 1..6, fingerprint 1..4 bytes, auto_expand on/off, rates 2..3, default "
           "or bucket-packing hash, plain or counting), plus fill / remove / re-add histories; every history is re-executed for every resolution of the "
-          "eviction choices below the leaf cap (60-100 quick, 5 000-10 000 thorough) and with random resolutions beyond; reloads in the middle put loaded "
+          "eviction choices below the leaf cap (60-100 quick, 800-1 500 thorough) and with random resolutions beyond; reloads in the middle put loaded "
           "tables under the invariant. Non-trivial = at least one eviction decision, capacity change or reload. Distinct by hash of (configuration, history)."),
     workloads=[
         Workload("repo_tests", wl_repo_tests, quick=0, thorough=1),
-        Workload("remove_readd", wl_remove_readd, quick=100, thorough=3000),
-        Workload("histories", wl_histories, quick=200, thorough=5000),
+        Workload("remove_readd", wl_remove_readd, quick=100, thorough=2500),
+        Workload("histories", wl_histories, quick=200, thorough=4000),
         Workload("long", wl_long, quick=30, thorough=1500),
     ],
     assumptions=["candidate buckets are recomputed independently: fp mod capacity and hash(str(fp)) mod capacity with the hash function the harness supplied "
